@@ -8,6 +8,7 @@ import (
 func init() {
 	vrt.Register("VerifC03EndToEnd", VerifC03EndToEnd)
 	vrt.Register("VerifC03Regular", VerifC03Regular)
+	vrt.Register("VerifC03Golomb", VerifC03Golomb)
 }
 
 func c03Pixels(name string, n, P int) []byte {
@@ -80,8 +81,9 @@ func c03Decoder(w, h, c, P int) *Decoder {
 // arbitrary neighbours and sample.  Golomb layer cut to a tape under the
 // engine (VerifC03Golomb decides that pair).
 func VerifC03Regular() {
-	P := vrt.Choice("P", 2, 16)
-	qs := c03Qs[vrt.Choice("qs", 0, len(c03Qs)-1)]
+	Ps := []int{7, 12, 16, 8, 2, 3, 4, 5, 6, 9, 10, 11, 13, 14, 15}
+	P := Ps[vrt.Choice("P", 0, vrt.Param("nP", 2)-1)]
+	qs := c03Qs[vrt.Choice("qs", 0, vrt.Param("nqs", 1)-1)]
 	maxVal := 1<<uint(P) - 1
 	enc := NewEncoder(1, 1, 1, P)
 	dec := c03Decoder(1, 1, 1, P)
@@ -107,7 +109,7 @@ func VerifC03Regular() {
 	if vrt.Symbolic() {
 		vrt.StubWith("(*"+c03Pkg+".GolombWriter).EncodeMappedValue", func(g *GolombWriter, k, mapped, limit, qbpp int) error {
 			vrt.Assert(mapped >= 0, "C03 mapped error is non-negative")
-			vrt.Assert(mapped < 1<<uint(qbpp+1), "C03 mapped error fits the escape code (qbpp+1 bits)")
+			vrt.Assert((mapped>>uint(k)) < limit-(qbpp+1) || mapped-1 < 1<<uint(qbpp), "C03 mapped error is representable by the limited-length Golomb code (escape holds mapped-1 in qbpp bits)")
 			tape = append(tape, mapped)
 			tapeK = append(tapeK, k)
 			return nil
@@ -134,4 +136,37 @@ func VerifC03Regular() {
 	// the invariant is inductive
 	vrt.Assert(dc.N >= 1 && dc.N <= 64 && dc.A >= 0 && dc.B > -dc.N && dc.B <= 0 && dc.C >= -128 && dc.C <= 127, "C03 context invariant preserved")
 	vrt.Out("px", dpix[0])
+}
+
+// VerifC03Golomb: the real limited-length Golomb code: EncodeMappedValue ->
+// DecodeValue returns the mapped value for every k and every value the
+// regular/run-interruption coders may hand over (precondition asserted by
+// VerifC03Regular), with following data undisturbed.
+func VerifC03Golomb() {
+	P := []int{2, 3, 7, 8, 12, 16}[vrt.Choice("Pi", 0, 5)]
+	tr := NewTraits(1<<uint(P)-1, 0, 64)
+	k := vrt.Choice("k", 0, vrt.Param("maxK", 8))
+	mapped := vrt.Int("mapped", 0, 1<<uint(tr.Qbpp))
+	vrt.Assume((mapped>>uint(k)) < tr.Limit-(tr.Qbpp+1) || mapped-1 < 1<<uint(tr.Qbpp))
+	var buf bytes.Buffer
+	gw := NewGolombWriter(&buf)
+	vrt.Assert(gw.EncodeMappedValue(k, mapped, tr.Limit, tr.Qbpp) == nil, "C03 EncodeMappedValue returns no error")
+	trailer := vrt.Int("trailer", 0, 127)
+	_ = gw.WriteBits(uint32(trailer), 7)
+	_ = gw.Flush()
+	b := buf.Bytes()
+	bad := 0
+	for i := 0; i+1 < len(b); i++ {
+		if b[i] == 0xFF && b[i+1] >= 0x80 {
+			bad |= 1
+		}
+	}
+	vrt.Assert(bad == 0, "C16 JPEG-LS entropy-coded bytes: a byte after FF has its high bit clear")
+	gr := NewGolombReader(bytes.NewReader(b))
+	got, err := gr.DecodeValue(k, tr.Limit, tr.Qbpp)
+	vrt.Assert(err == nil, "C03 DecodeValue returns no error")
+	vrt.Assert(got == mapped, "C03 DecodeValue returns the encoded mapped value")
+	t, err := gr.ReadBits(7)
+	vrt.Assert(err == nil && int(t) == trailer, "C03 following bits are not disturbed")
+	vrt.Out("got", got)
 }
